@@ -432,3 +432,80 @@ func mutantKey(l string) string {
 	}
 	return rest
 }
+
+// runBenign replays the behaviour-preserving changes written by independent sub-agents (benign-small/: eight small edits
+// per property; benign/: four refactorings per property) against this property's rules. A violation reported on one of
+// them is a false alarm of the checker. Like the mutant catalogue this is a statement about the checker, not about /repo:
+// the counts go into the evidence and never change the exit code.
+func runBenign(id, repo, root string) map[string]any {
+	self, err := os.Executable()
+	if err != nil {
+		return nil
+	}
+	tmp := os.Getenv("TMPDIR")
+	if tmp == "" {
+		tmp = "/tmp"
+	}
+	out := map[string]any{}
+	for _, corpus := range []struct{ key, glob string }{
+		{"small_edits", filepath.Join(root, "benign-small", "*", "small-*.diff")},
+		{"refactorings", filepath.Join(root, "benign", "*", "benign-*.diff")},
+	} {
+		ps, _ := filepath.Glob(corpus.glob)
+		sort.Strings(ps)
+		var mu sync.Mutex
+		var wg sync.WaitGroup
+		sem := make(chan struct{}, 8)
+		silent, alarmed, undecided, skipped := 0, 0, 0, 0
+		var alarms []string
+		for _, pth := range ps {
+			wg.Add(1)
+			go func(pth string) {
+				defer wg.Done()
+				sem <- struct{}{}
+				defer func() { <-sem }()
+				dir, err := os.MkdirTemp(tmp, "mcpcheck-benign-")
+				if err != nil {
+					return
+				}
+				defer os.RemoveAll(dir)
+				st := ""
+				if err := copyTree(repo, dir); err != nil {
+					st = "skipped"
+				} else if _, err := exec.Command("git", "-C", dir, "apply", "--whitespace=nowarn", pth).CombinedOutput(); err != nil {
+					st = "skipped"
+				} else {
+					cmd := exec.Command(self, "-property", id, "-tier", "quick", "-repo", dir, "-root", root, "-no-evidence", "-whole")
+					cmd.Env = os.Environ()
+					o, _ := cmd.CombinedOutput()
+					switch {
+					case strings.Contains(string(o), "MUTANT-REPORT "):
+						st = "alarmed"
+					case strings.Contains(string(o), "MUTANT-UNDECIDED "):
+						st = "undecided"
+					default:
+						st = "silent"
+					}
+				}
+				mu.Lock()
+				defer mu.Unlock()
+				switch st {
+				case "alarmed":
+					alarmed++
+					rel, _ := filepath.Rel(root, pth)
+					alarms = append(alarms, rel)
+				case "undecided":
+					undecided++
+				case "silent":
+					silent++
+				default:
+					skipped++
+				}
+			}(pth)
+		}
+		wg.Wait()
+		sort.Strings(alarms)
+		out[corpus.key] = map[string]any{"patches": len(ps), "silent": silent, "undecided_only": undecided, "false_alarms": alarmed, "skipped": skipped, "alarmed_patches": alarms}
+	}
+	return out
+}
